@@ -187,4 +187,37 @@ def tree_interp(repo, d: int = 3, pss_sign: int = 1, r: int = 0, cls: str = "Mul
     it = make_interp(repo, attrs, {"__len__": lambda: 2 ** d}, opaque_calls=("grade", "filter", "map", "items", "keys", "values", "grades", "type_number", "free_symbols",
                                    "issymbolic", "shape"))
     it.scalar_reciprocals = True
+
+    # The scalar coefficient of an expression in the pseudoscalar alone is a number: I is one blade of grade d with
+    # I*I = pss_sign, ~I = (-1)^(d(d-1)/2) I, involute(I) = (-1)^d I, normsq(a) = a * ~a.
+    rev_sign, inv_sign = (-1) ** (d * (d - 1) // 2), (-1) ** d
+
+    def in_pss(t):
+        """T over the pseudoscalar alone -> (scalar part, pseudoscalar part) as numbers, else None."""
+        sc = ps = Fraction(0)
+        for w, c in t.terms.items():
+            a, b = Fraction(c), Fraction(0)            # running value a + b*I
+            for l in w:
+                if l[0] == "v" and l[1] == "pss":
+                    la, lb = Fraction(0), Fraction((rev_sign if l[2] else 1) * (inv_sign if l[3] else 1))
+                elif l[0] == "o" and l[1] == "normsq" and len(l[2]) == 1 and isinstance(l[2][0], T) and not l[3]:
+                    inner = in_pss(l[2][0])
+                    if inner is None:
+                        return None
+                    ia, ib = inner
+                    # (ia + ib I)(ia + ib ~I): scalar ia^2 + ib^2 rev I^2, pseudoscalar ia ib (1 + rev)
+                    la, lb = ia * ia + ib * ib * rev_sign * pss_sign, ia * ib * (1 + rev_sign)
+                else:
+                    return None
+                a, b = a * la + b * lb * pss_sign, a * lb + b * la
+            sc, ps = sc + a, ps + b
+        return sc, ps
+
+    def pss_hook(v, name):
+        if isinstance(v, T) and name == "e" and v.terms and any(w for w in v.terms):
+            r = in_pss(v)
+            if r is not None:
+                return int(r[0]) if r[0].denominator == 1 else r[0]
+        return NotImplemented
+    it.attr_hook = pss_hook
     return it
